@@ -16,7 +16,8 @@ def k256 : Array UInt32 := #[
 
 @[inline] def rotr32 (x : UInt32) (n : UInt32) : UInt32 := (x >>> n) ||| (x <<< (32 - n))
 
-def sha256 (msg : List Nat) : List Nat := Id.run do
+/-- the eight state words after the last block -/
+def sha256State (msg : List Nat) : Array UInt32 := Id.run do
   let ml := msg.length
   let mut data := toBA msg
   data := data.push 0x80
@@ -46,10 +47,15 @@ def sha256 (msg : List Nat) : List Nat := Id.run do
       let t2 := s0 + mj
       hh := g; g := f; f := e; e := d + t1; d := c; c := b; b := a; a := t1 + t2
     h := #[h[0]! + a, h[1]! + b, h[2]! + c, h[3]! + d, h[4]! + e, h[5]! + f, h[6]! + g, h[7]! + hh]
-  let mut out : List Nat := []
-  for x in h.toList.reverse do
-    out := ((x >>> 24).toNat % 256) :: ((x >>> 16).toNat % 256) :: ((x >>> 8).toNat % 256) :: (x.toNat % 256) :: out
-  return out
+  return h
+
+/-- big-endian bytes of a 32-bit word -/
+def be32 (x : UInt32) : List Nat := [(x >>> 24).toNat % 256, (x >>> 16).toNat % 256, (x >>> 8).toNat % 256, x.toNat % 256]
+
+/-- SHA-256: the eight state words, big-endian (32 bytes whatever the input: `Lemmas/OracleReal`) -/
+def sha256 (msg : List Nat) : List Nat :=
+  let h := sha256State msg
+  be32 h[0]! ++ be32 h[1]! ++ be32 h[2]! ++ be32 h[3]! ++ be32 h[4]! ++ be32 h[5]! ++ be32 h[6]! ++ be32 h[7]!
 
 def k512 : Array UInt64 := #[
   0x428a2f98d728ae22,0x7137449123ef65cd,0xb5c0fbcfec4d3b2f,0xe9b5dba58189dbbc,0x3956c25bf348b538,0x59f111f1b605d019,0x923f82a4af194f9b,0xab1c5ed5da6d8118,
@@ -65,7 +71,8 @@ def k512 : Array UInt64 := #[
 
 @[inline] def rotr64 (x : UInt64) (n : UInt64) : UInt64 := (x >>> n) ||| (x <<< (64 - n))
 
-def sha512 (msg : List Nat) : List Nat := Id.run do
+/-- the eight state words after the last block -/
+def sha512State (msg : List Nat) : Array UInt64 := Id.run do
   let ml := msg.length
   let mut data := toBA msg
   data := data.push 0x80
@@ -98,12 +105,16 @@ def sha512 (msg : List Nat) : List Nat := Id.run do
       let t2 := s0 + mj
       hh := g; g := f; f := e; e := d + t1; d := c; c := b; b := a; a := t1 + t2
     h := #[h[0]! + a, h[1]! + b, h[2]! + c, h[3]! + d, h[4]! + e, h[5]! + f, h[6]! + g, h[7]! + hh]
-  let mut out : List Nat := []
-  for x in h.toList.reverse do
-    let mut bs : List Nat := []
-    for j in [0:8] do
-      bs := ((x >>> (UInt64.ofNat (8 * j))).toNat % 256) :: bs
-    out := bs ++ out
-  return out
+  return h
+
+/-- big-endian bytes of a 64-bit word -/
+def be64 (x : UInt64) : List Nat :=
+  [(x >>> 56).toNat % 256, (x >>> 48).toNat % 256, (x >>> 40).toNat % 256, (x >>> 32).toNat % 256,
+   (x >>> 24).toNat % 256, (x >>> 16).toNat % 256, (x >>> 8).toNat % 256, x.toNat % 256]
+
+/-- SHA-512: the eight state words, big-endian (64 bytes whatever the input) -/
+def sha512 (msg : List Nat) : List Nat :=
+  let h := sha512State msg
+  be64 h[0]! ++ be64 h[1]! ++ be64 h[2]! ++ be64 h[3]! ++ be64 h[4]! ++ be64 h[5]! ++ be64 h[6]! ++ be64 h[7]!
 
 end Fips204.Exec
